@@ -101,7 +101,7 @@ func c02Ratchet(c *Ctx) {
 		// that is still the smallest form); gaps >= 4 so that a random absent value is rarely adjacent to a run
 		runEdge = true
 		R := 2046 + r.Intn(3)
-		c0 := 4094 + r.Intn(3)
+		c0 := 4094 + r.Intn(5) // 4094..4098
 		st := NewISet()
 		pos := uint64(r.Range(0, 8))
 		threes := c0 - 2*R
@@ -149,6 +149,19 @@ func c02Ratchet(c *Ctx) {
 				continue
 			}
 			x, _ := comp.Select(r.U64n(comp.Card()))
+			if r.Chance(0.2) {
+				// a one-wide gap between two runs (filling it merges them: one run less, one value more)
+				var gaps []uint64
+				for _, g := range comp.Intervals() {
+					if g.Lo == g.Hi && g.Lo > base && g.Hi < base+65535 {
+						gaps = append(gaps, g.Lo)
+					}
+				}
+				if len(gaps) > 0 {
+					x = gaps[r.Intn(len(gaps))]
+					c.Count("ratchet_additions_merging_two_runs")
+				}
+			}
 			switch r.Intn(4) {
 			case 0:
 				op = "Add"
@@ -179,6 +192,20 @@ func c02Ratchet(c *Ctx) {
 		default:
 			in := bm.M.Restrict(base, base+65535)
 			x, _ := in.Select(r.U64n(in.Card()))
+			if r.Chance(0.3) {
+				// a value strictly inside a run (its removal splits the run: one more run, one value less)
+				var inner []IV
+				for _, v := range in.Intervals() {
+					if v.Hi-v.Lo >= 2 {
+						inner = append(inner, v)
+					}
+				}
+				if len(inner) > 0 {
+					v := inner[r.Intn(len(inner))]
+					x = r.Range(v.Lo+1, v.Hi-1)
+					c.Count("ratchet_removals_splitting_a_run")
+				}
+			}
 			switch r.Intn(4) {
 			case 0:
 				op = "Remove"
